@@ -41,6 +41,8 @@ build() { # $1 = engine
 if [ "$id" = replay ]; then
   file=$2
   prop=$(python3 -c "import json,sys;print(json.load(open(sys.argv[1]))['property'])" "$file") || exit 2
+  # the tier the finding was made in (the thorough tier keeps scheduling points the quick tier drops)
+  export VERIF_TIER=$(python3 -c "import json,sys;print(json.load(open(sys.argv[1])).get('tier') or 'quick')" "$file")
   eng=$(engine_of "$prop")
   build "$eng" || { echo "build failed" >&2; exit 2; }
   exec "$VERIF_OUT/bin/$eng" replay "$file"
